@@ -11,8 +11,10 @@ import WtfModel.Model.Fuzzy
   and the typo fallback (matcher in Model/Fuzzy.lean).
   What enters as *parameters* (`Tuning`): idf (math.Log), the NLP analysis of the query and the per-document
   NLP boost factors, the TF-IDF ranking, the tie order of the fuzzy library's sort, Unicode facts.
-  Theorems quantify over all parameter values satisfying stated well-formedness conditions; the
-  correspondence runs feed the driver the values the real code computed.
+  Theorems quantify over all parameter values satisfying stated well-formedness conditions.  Since round 2 the NLP
+  analysis and factors (Model/Nlp.lean, Model/Boosts.lean) and the TF-IDF ranking (Model/Tfidf.lean) are modelled too:
+  `Wtf.Search.modelledTuning` (Model/Modelled.lean) plugs them in, the driver runs exactly that parameter set, and only
+  idf values, the fuzzy tie order and Unicode facts are still fed from what the real code computed.
 -/
 namespace Wtf.Search
 open Text Index Filters ScoreOps
